@@ -1,0 +1,73 @@
+//go:build verif
+
+/*
+Copyright 2025 The Volcano Authors.
+
+Licensed under the Apache License, Version 2.0 (the "License");
+you may not use this file except in compliance with the License.
+You may obtain a copy of the License at
+
+    http://www.apache.org/licenses/LICENSE-2.0
+
+Unless required by applicable law or agreed to in writing, software
+distributed under the License is distributed on an "AS IS" BASIS,
+WITHOUT WARRANTIES OR CONDITIONS OF ANY KIND, either express or implied.
+See the License for the specific language governing permissions and
+limitations under the License.
+*/
+
+package cache
+
+import (
+	"context"
+	"time"
+
+	k8smetrics "k8s.io/kubernetes/pkg/scheduler/metrics"
+
+	agentapi "volcano.sh/volcano/pkg/agentscheduler/api"
+	"volcano.sh/volcano/pkg/agentscheduler/metrics"
+	k8sschedulingqueue "volcano.sh/volcano/third_party/kubernetes/pkg/scheduler/backend/queue"
+)
+
+// This file only exists with the build tag "verif". It lets an external harness drive a mock
+// agent SchedulerCache without Run(): a mock cache that has a real scheduling queue and a
+// conflict-aware binder (what the package's own tests build in mockForTest), and the bind flow
+// processed synchronously by the existing unexported functions. Nothing here changes their behaviour.
+
+// VerifNewMockSchedulerCache returns NewCustomMockSchedulerCache's cache with a scheduling queue
+// (resyncTask and the event handlers notify it) and a ConflictAwareBinder (RemoveNode talks to it).
+func VerifNewMockSchedulerCache(schedulerName string, binder Binder, statusUpdater StatusUpdater) *SchedulerCache {
+	metrics.InitKubeSchedulerRelatedMetrics()
+	sc := NewCustomMockSchedulerCache(schedulerName, binder, statusUpdater, nil)
+	ctx, cancel := context.WithCancel(context.Background())
+	sc.cancel = cancel
+	metricsRecorder := k8smetrics.NewMetricsAsyncRecorder(1000, time.Second, ctx.Done())
+	sc.schedulingQueue = k8sschedulingqueue.NewSchedulingQueue(
+		Less,
+		sc.informerFactory,
+		k8sschedulingqueue.WithClock(defaultSchedulerOptions.clock),
+		k8sschedulingqueue.WithPodInitialBackoffDuration(time.Duration(defaultSchedulerOptions.podInitialBackoffSeconds)*time.Second),
+		k8sschedulingqueue.WithPodMaxBackoffDuration(time.Duration(defaultSchedulerOptions.podMaxBackoffSeconds)*time.Second),
+		k8sschedulingqueue.WithPodMaxInUnschedulablePodsDuration(defaultSchedulerOptions.podMaxInUnschedulablePodsDuration),
+		k8sschedulingqueue.WithMetricsRecorder(metricsRecorder),
+		k8sschedulingqueue.WithQueueingHintMapPerProfile(make(k8sschedulingqueue.QueueingHintMapPerProfile)),
+	)
+	sc.ConflictAwareBinder = NewConflictAwareBinder(sc, sc.schedulingQueue)
+	return sc
+}
+
+// VerifProcessBindFlow takes the bind contexts AddBindTask queued on BindFlowChannel and runs,
+// inline and one context at a time, what BindTask runs in a goroutine: the registered
+// pre-binders (executePreBinds), then Bind. It returns the number of contexts processed.
+func (sc *SchedulerCache) VerifProcessBindFlow() int {
+	n := 0
+	for len(sc.BindFlowChannel) > 0 {
+		bindContext := <-sc.BindFlowChannel
+		ctx := context.Background()
+		preBinders := sc.binderRegistry.getRegisteredPreBinders()
+		successful := sc.executePreBinds(ctx, []*agentapi.BindContext{bindContext}, preBinders)
+		sc.Bind(ctx, successful, preBinders)
+		n++
+	}
+	return n
+}
